@@ -282,6 +282,8 @@ def newInst (s : Sys) (n : Name) : Sys × IId :=
 /-- `runProcess` after the lock has been obtained: new instance, register, spawn its goroutine. -/
 def spawnProc (s : Sys) (n : Name) : Sys :=
   let (s, i) := newInst s n
+  -- a new instance starts its life cycle in state Pending
+  let s := setState s i .pending
   let s := { s with running := s.running.set n (some i), wg := s.wg + 1 }
   s.spawn (.proc i)
 
@@ -305,6 +307,7 @@ def revDepsOf (s : Sys) (n : Name) : List IId :=
 structure Hints where
   depOrder : List Name := []
   sdOrder : List Name := []
+  runOrder : List Name := []
 deriving Repr, Inhabited
 
 def pickDep (h : Hints) (rest : List (Name × Cond)) : Option ((Name × Cond) × List (Name × Cond)) :=
@@ -427,7 +430,7 @@ def statusString : Status → String
   | .terminating => "Terminating" | .completed => "Completed" | .skipped => "Skipped" | .error => "Error"
 
 /-- first action of an API thread after its lookup lock is available -/
-def apiFirst (s : Sys) (t : Tid) (op : ApiOp) : Sys :=
+def apiFirst (s : Sys) (t : Tid) (h : Hints) (op : ApiOp) : Sys :=
   match op with
   | .start n =>
     match s.running.getD n none with
@@ -451,7 +454,10 @@ def apiFirst (s : Sys) (t : Tid) (op : ApiOp) : Sys :=
   | .runMain =>
     -- Run(): reset registries, spawn every non-deferred process in dependency order
     let s := { s with running := s.running.map (fun _ => none), doneM := s.doneM.map (fun _ => none) }
-    let s := (runOrder s).foldl spawnProc s
+    -- the spawn order is the implementation's (`WithProcesses` over a map); the model follows it
+    let ro := runOrder s
+    let order := (h.runOrder.filter (ro.contains ·)) ++ (ro.filter (!h.runOrder.contains ·))
+    let s := order.foldl spawnProc s
     s.setPc t .runWg
 
 /-! The thread programs, one definition per label ("arm"), so that each can be reasoned about on
@@ -478,9 +484,11 @@ def armWaitLogReady (s : Sys) (t : Tid) (i d : IId) (rest : List (Name × Cond))
 def armProcSkipped (s : Sys) (t : Tid) (i : IId) : Sys :=
   if (s.icfg i).exitOnSkipped then (recordExit s 1).setPc t (.sdEnter .procSkip) else gotoCleanup s t
 
-/-- `run()` entry: refuses to launch when already Terminating (and ends the process) -/
+/-- `run()` entry: refuses to launch when already Terminating or when this instance's own run
+    context was cancelled (and ends the process) -/
 def armRunEnter (s : Sys) (t : Tid) (i : IId) : Sys :=
-  if (s.ps (s.nameOf i)).status = .terminating then (onProcessEnd s i .completed).setPc t (.procRan 0)
+  if (s.ps (s.nameOf i)).status = .terminating ∨ (s.inst i).runCancelled then
+    (onProcessEnd s i .completed).setPc t (.procRan 0)
   else s.setPc t .runChecked
 
 def armRunChecked (s : Sys) (t : Tid) (i : IId) : Sys :=
@@ -521,9 +529,11 @@ def armProcDoneAdded (s : Sys) (t : Tid) (i : IId) (code : Int) : Sys :=
   if (code ≠ 0 ∧ c.policy = .exitOnFailure) ∨ c.exitOnEnd then (recordExit s code).setPc t (.sdEnter (.procEnd code))
   else gotoCleanup s t
 
-/-- `removeRunningProcess`: delete by name, whoever is registered -/
+/-- `removeRunningProcess`: unregister the name only if it is this instance that is registered -/
 def armLockCleanup (s : Sys) (t : Tid) (i : IId) : Sys :=
-  ({ s with running := s.running.set (s.nameOf i) none }).setPc t .finished
+  if s.running.getD (s.nameOf i) none = some i then
+    ({ s with running := s.running.set (s.nameOf i) none }).setPc t .finished
+  else s.setPc t .finished
 
 def stepProc (s : Sys) (t : Tid) (i : IId) (h : Hints) : Pc → Sys
   | .begin => s.setPc t (.depNext (s.icfg i).deps)
@@ -571,8 +581,8 @@ def stopMarkedPrep (s : Sys) (i : IId) (cr : Bool) : Sys :=
 def armStopMarked (s : Sys) (t : Tid) (i : IId) (cr : Bool) (k : StopK) : Sys :=
   let s := stopMarkedPrep s i cr
   if (s.inst i).cmd = .none then
-    -- p.command is nil: nil-pointer dereference in the real code
-    ({ s with crashed := true }.emit (.crash "stop-without-command")).setPc t .finished
+    -- `p.command == nil`: this instance has not launched anything, there is nothing to signal
+    stopReturn s t k
   else
     -- the configured signal is handed to the commander as is (the clamp is `CmdWrapper.Stop`'s, C06)
     let s := cmdStop s i (s.icfg i).sdSignal
@@ -622,19 +632,19 @@ def stepDepwaiter (s : Sys) (t : Tid) (o i : IId) : Pc → Sys
 
 /-! API threads -/
 
-def armApiBegin (s : Sys) (t : Tid) (op : ApiOp) : Sys :=
+def armApiBegin (s : Sys) (t : Tid) (h : Hints) (op : ApiOp) : Sys :=
   match op with
   | .shutdown => s.setPc t (.sdEnter .api)
-  | _ => if lockFree s t then apiFirst s t op else s.setPc t (.apiLock op)
+  | _ => if lockFree s t then apiFirst s t h op else s.setPc t (.apiLock op)
 
 def armSpawnOrLock (s : Sys) (t : Tid) (n : Name) : Sys :=
   if n < s.cfgs.length then
     if lockFree s t then apiSpawn s t n else s.setPc t (.lockSpawn n)
   else apiRet s t "no-such"
 
-def stepApi (s : Sys) (t : Tid) (op : ApiOp) : Pc → Sys
-  | .begin => armApiBegin s t op
-  | .apiLock op' => apiFirst s t op'
+def stepApi (s : Sys) (t : Tid) (h : Hints) (op : ApiOp) : Pc → Sys
+  | .begin => armApiBegin s t h op
+  | .apiLock op' => apiFirst s t h op'
   | .startChecked n => armSpawnOrLock s t n
   | .lockSpawn n => apiSpawn s t n
   | .restartStopped n => s.setPc t (.restartSleep n)
@@ -669,7 +679,7 @@ def stepThread (s : Sys) (t : Tid) (h : Hints) : Sys :=
   | pc =>
     match th.kind with
     | .proc i => stepProc s t i h pc
-    | .api _ op => stepApi s t op pc
+    | .api _ op => stepApi s t h op pc
     | .stopper i => stepStopper s t i pc
     | .waiter i => stepWaiter s t i pc
     | .depwaiter o i => stepDepwaiter s t o i pc
